@@ -69,7 +69,7 @@ def gen_box(r, n):
     return lo, [l + r.choice([1.0, 2.0, 4.0, 0.5]) for l in lo]
 
 
-def gen_nm(r, max_nm=50, min_nm=1, ns=(1, 2, 3, 4, 5)):
+def gen_nm(r, max_nm=50, min_nm=1, ns=(1, 2, 3, 4, 5, 6, 7)):
     """(N, m) with min_nm <= N*m <= max_nm"""
     for _ in range(1000):
         n = r.choice(ns)
